@@ -232,8 +232,6 @@ Proof.
 Qed.
 
 (* ---- occurrences of variables: mine are among theirs ---- *)
-Definition fields_unique (s : schema) : Prop :=
-  forall n fs, alookup n s = Some (TDInput fs) -> NoDup (map f_name fs).
 
 Lemma find_arg_sarg_of fs f :
   NoDup (map f_name fs) -> In f fs -> V.find_arg (f_name f) (map sarg_of fs) = Some (sarg_of f).
@@ -338,6 +336,35 @@ Definition node_in_operation (s' : V.schema) (d : document) (op : definition)
   \/ exists fr df, VS.frag_reach d (VS.def_sels op) fr /\ In df (doc_defs d)
                    /\ VS.fragment_named df fr /\ VT.reaches_in s' df (Some p) z.
 
+(* core: once every typed position of the argument list is a position of the
+   operation in the sense of the validation spec *)
+Lemma usage_ok_core s s' d op sargs defs args :
+  schema_agree s s' -> schema_closed s -> schema_inputs s -> fields_unique s ->
+  VT.spec_variables_in_allowed_position s' d -> VT.wf_var_types s' d ->
+  In op (doc_defs d) -> VS.is_operation op ->
+  sargs = map sarg_of defs -> NoDup (map f_name defs) ->
+  (forall d0, In d0 defs -> usable s (f_ty d0)) ->
+  (forall vd, In vd (VL.op_vars op) -> V.type_from_ast s' (vd_type vd) <> None) ->
+  (forall x it hd, VT.args_var_at s' sargs args x it hd -> VT.op_var_at s' d op x it hd) ->
+  usage_ok s (VL.op_vars op) defs args.
+Proof.
+  intros Ha Hc Hi Hu H24 Hwv Hop Hisop Hargs Hnd Hus Hknown Hpos.
+  intros d0 lit x tp vd Hd0 Hl Hat Hvd Hx.
+  destruct (var_at_included s s' Ha Hc Hi Hu _ _ _ _ Hat (Hus d0 Hd0)) as (Hutp & Hincl).
+  destruct (Hincl (V.sa_default (sarg_of d0))) as (hd' & Hv).
+  apply arg_lookup_In in Hl as (arg & Harg & Hname & Hval). subst lit.
+  assert (Hava : VT.args_var_at s' sargs args x (tref_of tp) hd').
+  { exists arg, (sarg_of d0). split; [assumption|]. split.
+    - rewrite Hargs, Hname. apply find_arg_sarg_of; assumption.
+    - simpl. unfold VT.pos_filter. rewrite (agree_input_type s s' _ Ha (Hus d0 Hd0)). exact Hv. }
+  pose proof (H24 op x (tref_of tp) hd' vd Hop Hisop (Hpos _ _ _ Hava) Hvd Hx) as Hall.
+  destruct (V.type_from_ast s' (vd_type vd)) as [vt|] eqn:Evt; [|exfalso; eapply Hknown; eauto].
+  rewrite <- (ity_of_tref_of tp) at 1.
+  eapply (usage_allowed_sub s' vd (tref_of tp) hd' vt); auto using wf_tref_of.
+  - apply vv_wf_tref. eapply Hwv; eauto.
+  - rewrite unwrap_tref_of. apply (agree_input_named s s' tp Ha Hutp).
+Qed.
+
 Theorem usage_ok_from_validation s s' d op p a n args dirs sl sb l f defs :
   schema_agree s s' -> schema_closed s -> schema_inputs s -> fields_unique s ->
   (* the validation side: rule 24 of the C05/C06 model is silent on the document *)
@@ -355,24 +382,41 @@ Theorem usage_ok_from_validation s s' d op p a n args dirs sl sb l f defs :
 Proof.
   intros Ha Hc Hi Hu Hk Huv Hkd Hwv H24 Hop Hisop Hnode Hf Hargs Hnd Hus Hknown.
   apply (proj1 (C06.C06_rule_equiv_VariablesInAllowedPosition s' d Hk Huv Hkd)) in H24.
-  intros d0 lit x tp vd Hd0 Hl Hat Hvd Hx.
-  destruct (var_at_included s s' Ha Hc Hi Hu _ _ _ _ Hat (Hus d0 Hd0)) as (Hutp & Hincl).
-  destruct (Hincl (V.sa_default (sarg_of d0))) as (hd' & Hv).
-  apply arg_lookup_In in Hl as (arg & Harg & Hname & Hval). subst lit.
-  assert (Hava : VT.args_var_at s' (V.sf_args f) args x (tref_of tp) hd').
-  { exists arg, (sarg_of d0). split; [assumption|]. split.
-    - rewrite Hargs, Hname. apply find_arg_sarg_of; assumption.
-    - simpl. unfold VT.pos_filter. rewrite (agree_input_type s s' _ Ha (Hus d0 Hd0)). exact Hv. }
-  assert (Hopat : VT.op_var_at s' d op x (tref_of tp) hd').
-  { destruct Hnode as [Hr|(fr & df & Hfr & Hdf & Hfn & Hr)].
-    - left. left. exists p, a, n, args, dirs, sl, sb, l, f. auto.
-    - right. exists fr, df. repeat split; auto. left. exists p, a, n, args, dirs, sl, sb, l, f. auto. }
-  pose proof (H24 op x (tref_of tp) hd' vd Hop Hisop Hopat Hvd Hx) as Hall.
-  destruct (V.type_from_ast s' (vd_type vd)) as [vt|] eqn:Evt; [|exfalso; eapply Hknown; eauto].
-  rewrite <- (ity_of_tref_of tp) at 1.
-  eapply (usage_allowed_sub s' vd (tref_of tp) hd' vt); auto using wf_tref_of.
-  - apply vv_wf_tref. eapply Hwv; eauto.
-  - rewrite unwrap_tref_of. apply (agree_input_named s s' tp Ha Hutp).
+  eapply (usage_ok_core s s' d op (V.sf_args f)); eauto.
+  intros x it hd Hava.
+  destruct Hnode as [Hr|(fr & df & Hfr & Hdf & Hfn & Hr)].
+  - left. left. exists p, a, n, args, dirs, sl, sb, l, f. auto.
+  - right. exists fr, df. repeat split; auto. left. exists p, a, n, args, dirs, sl, sb, l, f. auto.
+Qed.
+
+(* the same for the arguments of a directive written on a node (or on the
+   definition) of the operation or of a reachable fragment *)
+Definition directive_in_operation (s' : V.schema) (d : document) (op : definition)
+           (dr : directive) : Prop :=
+  VT.directive_in s' op dr
+  \/ exists fr df, VS.frag_reach d (VS.def_sels op) fr /\ In df (doc_defs d)
+                   /\ VS.fragment_named df fr /\ VT.directive_in s' df dr.
+
+Theorem usage_ok_directive_from_validation s s' d op dr dd defs :
+  schema_agree s s' -> schema_closed s -> schema_inputs s -> fields_unique s ->
+  NoDup (VP.op_key_list d) -> VL.spec_unique_variable_names d -> VL.spec_known_directives s' d ->
+  VT.wf_var_types s' d ->
+  R.r24_variables_in_allowed_position s' d = Ok [] ->
+  In op (doc_defs d) -> VS.is_operation op ->
+  directive_in_operation s' d op dr ->
+  alookup (n_val (d_name dr)) (V.s_dirs s') = Some dd ->
+  V.sd_args dd = map sarg_of defs -> NoDup (map f_name defs) ->
+  (forall d0, In d0 defs -> usable s (f_ty d0)) ->
+  (forall vd, In vd (VL.op_vars op) -> V.type_from_ast s' (vd_type vd) <> None) ->
+  usage_ok s (VL.op_vars op) defs (d_args dr).
+Proof.
+  intros Ha Hc Hi Hu Hk Huv Hkd Hwv H24 Hop Hisop Hdir Hdd Hargs Hnd Hus Hknown.
+  apply (proj1 (C06.C06_rule_equiv_VariablesInAllowedPosition s' d Hk Huv Hkd)) in H24.
+  eapply (usage_ok_core s s' d op (V.sd_args dd)); eauto.
+  intros x it hd Hava.
+  destruct Hdir as [Hr|(fr & df & Hfr & Hdf & Hfn & Hr)].
+  - left. right. exists dr, dd. auto.
+  - right. exists fr, df. repeat split; auto. right. exists dr, dd. auto.
 Qed.
 
 (* ---- the whole request, with no usage_ok hypothesis left ---- *)
@@ -449,6 +493,36 @@ Proof.
   destruct (V25.valid_spec_parts s' d Hvs) as (Hk & Huv & Hkd).
   apply (proj2 (C06.C06_rule_equiv_VariablesInAllowedPosition s' d Hk Huv Hkd)) in H24.
   eapply validated_request_sound; eauto.
+Qed.
+
+(* the arguments of a directive of a validated request conform *)
+Theorem validated_directive_args_sound s s' d op dr dd defs dname ds raw kw :
+  schema_agree s s' -> schema_wf s -> schema_closed s -> fields_unique s ->
+  NoDup (VP.op_key_list d) -> VL.spec_unique_variable_names d -> VL.spec_known_directives s' d ->
+  VT.wf_var_types s' d ->
+  R.r24_variables_in_allowed_position s' d = Ok [] ->
+  In op (doc_defs d) -> VS.is_operation op ->
+  find_directive dname ds = Some dr -> directive_in_operation s' d op dr ->
+  alookup (n_val (d_name dr)) (V.s_dirs s') = Some dd ->
+  V.sd_args dd = map sarg_of defs -> NoDup (map f_name defs) ->
+  args_wf s defs -> (forall d0, In d0 defs -> bound s (f_ty d0)) ->
+  exec_directive_args s defs (VL.op_vars op) dname ds raw = Ok (Some kw) ->
+  NoDup (map fst kw)
+  /\ (forall k v, In (k, v) kw -> exists a, In a defs /\ f_py a = k /\ conforms s (f_ty a) v)
+  /\ (forall a, In a defs -> f_default a <> None \/ ity_nn (f_ty a) = true -> In (f_py a) (map fst kw)).
+Proof.
+  intros Ha Hwf Hc Hu Hk Huv Hkd Hwv H24 Hop Hisop Hfind Hdir Hdd Hargs Hnd Hawf Hb Hex.
+  assert (Hi : schema_inputs s) by (destruct Hwf as (_ & _ & Hi); exact Hi).
+  eapply exec_directive_sound; eauto.
+  intros d1 Hd1. rewrite Hfind in Hd1. inversion Hd1; subst d1.
+  eapply usage_ok_directive_from_validation; eauto.
+  - intros d0 Hd0. split; [apply Hb; assumption|apply (proj2 Hawf); assumption].
+  - intros vd Hvd. unfold exec_directive_args in Hex.
+    destruct (coerce_variable_values s (VL.op_vars op) raw) as [vs| | |] eqn:Ev; try discriminate.
+    unfold coerce_variable_values in Ev.
+    destruct (var_bindings s raw (VL.op_vars op)) as [asg| | |] eqn:Eb; try discriminate.
+    destruct (var_bindings_all_ok _ _ _ _ Eb vd Hvd) as (b & Hbv).
+    eapply var_binding_ok_known; eauto.
 Qed.
 
 (* non-vacuity of usage_ok: a list variable at a list argument, a stricter
